@@ -139,7 +139,6 @@ void sim_fill(void* p, size_t bytes, int fill, uint64_t fill_seed) {
   }
 }
 
-#if SIM_FLAVOUR != SIM_ASAN
 static uint8_t* chunk_take(uint64_t len, uint32_t blk_index) {
   if (g_nchunk == 0 || (uint64_t)(g_chunk[g_nchunk - 1].end - g_chunk[g_nchunk - 1].bump) < len + PAGE) {
     if (g_nchunk == MAXCHUNK) die("simrt: out of chunks");
@@ -158,37 +157,12 @@ static uint8_t* chunk_take(uint64_t len, uint32_t blk_index) {
   c->bump += len + PAGE;  // trailing guard page stays PROT_NONE
   return r;
 }
-#endif
 
 static blk_t* new_block(size_t bytes, size_t align, int place, int off8, int is_lib, int owner) {
   if (!g_heap_ready) sim_heap_init(0);
   if (g_nblk == MAXBLK) die("simrt: out of block slots");
   blk_t* b = &g_blk[g_nblk];
   memset(b, 0, sizeof(*b));
-#if SIM_FLAVOUR == SIM_ASAN
-  // real (ASan) allocator: redzones are byte precise; offsets are produced by over-allocating and poisoning the slack
-  if (is_lib) {
-    void* p = align > 16 ? __real_aligned_alloc(align, (bytes + align - 1) / align * align) : __real_malloc(bytes);
-    if (!p) die("simrt: real malloc failed");
-    b->start = (uint8_t*)p;
-    b->map_base = (uint8_t*)p;
-    b->map_len = bytes;
-  } else {
-    size_t tot = bytes + 128;
-    uint8_t* p = (uint8_t*)__real_malloc(tot);
-    if (!p) die("simrt: real malloc failed");
-    uint8_t* s = (uint8_t*)(((uintptr_t)p + 63) & ~(uintptr_t)63);
-    if (place == SIM_PLACE_OFFSET) s += (off8 & 7) * 8;
-    b->start = s;
-    b->map_base = p;
-    b->map_len = tot;
-    if (s > p) __asan_poison_memory_region(p, (size_t)(s - p));
-    // tail: poison from the first 8-aligned address after the block (bytes is a multiple of 8 for all our buffers)
-    uint8_t* e = s + bytes;
-    uint8_t* e8 = (uint8_t*)(((uintptr_t)e + 7) & ~(uintptr_t)7);
-    if (p + tot > e8) __asan_poison_memory_region(e8, (size_t)(p + tot - e8));
-  }
-#else
   uint64_t need = bytes + 64;
   if (align > 64) need = bytes + align;
   uint64_t len = (need + PAGE - 1) & ~(PAGE - 1);
@@ -212,6 +186,14 @@ static blk_t* new_block(size_t bytes, size_t align, int place, int off8, int is_
   b->start = s;
   b->map_base = base;
   b->map_len = len;
+#if SIM_FLAVOUR == SIM_ASAN
+  // byte-precise extents (8-byte granules): everything around the block is poisoned; addresses stay deterministic
+  // because nothing comes from the sanitizer's own allocator
+  if (s > base) __asan_poison_memory_region(base, (size_t)(s - base));
+  {
+    uint8_t* e8 = (uint8_t*)(((uintptr_t)(s + bytes) + 7) & ~(uintptr_t)7);
+    if (end > e8) __asan_poison_memory_region(e8, (size_t)(end - e8));
+  }
 #endif
   b->bytes = bytes;
   b->live = 1;
@@ -228,13 +210,6 @@ static blk_t* new_block(size_t bytes, size_t align, int place, int off8, int is_
 
 static blk_t* find_block(const void* addr) {
   const uint8_t* a = (const uint8_t*)addr;
-#if SIM_FLAVOUR == SIM_ASAN
-  for (uint32_t i = g_nblk; i-- > 0;) {
-    blk_t* b = &g_blk[i];
-    if (a >= b->map_base && a < b->map_base + b->map_len + (b->map_len == 0)) return b;
-  }
-  return NULL;
-#else
   for (int c = 0; c < g_nchunk; ++c) {
     chunk_t* ch = &g_chunk[c];
     if (a < ch->base || a >= ch->end) continue;
@@ -260,7 +235,6 @@ static blk_t* find_block(const void* addr) {
     return NULL;
   }
   return NULL;
-#endif
 }
 
 void* sim_alloc(size_t bytes, int place, int off8, int fill, uint64_t fill_seed, int owner) {
@@ -275,14 +249,12 @@ static void release_block(blk_t* b) {
   if (!b->live) die("simrt: double free of simulated block");
   b->live = 0;
   if (b->is_lib) g_lib_live--;
-#if SIM_FLAVOUR == SIM_ASAN
-  if (!b->is_lib) __asan_unpoison_memory_region(b->map_base, b->map_len);
-  __real_free(b->map_base);
-#else
   // never reused: stays PROT_NONE for the rest of the run (use-after-free faults)
+#if SIM_FLAVOUR == SIM_ASAN
+  __asan_poison_memory_region(b->map_base, b->map_len);
+#endif
   mprotect(b->map_base, b->map_len, PROT_NONE);
   madvise(b->map_base, b->map_len, MADV_DONTNEED);
-#endif
 }
 
 void sim_release(void* p) {
@@ -398,16 +370,10 @@ int sim_describe(const void* addr, uint64_t* off, uint64_t* size, int* is_lib, i
 
 // ---- the malloc family as seen by the library (and by harness code that frees library objects)
 static int in_sim_heap(const void* p) {
-#if SIM_FLAVOUR == SIM_ASAN
-  for (uint32_t i = g_nblk; i-- > 0;)
-    if (g_blk[i].live && g_blk[i].start == (const uint8_t*)p) return 1;
-  return 0;
-#else
   const uint8_t* a = (const uint8_t*)p;
   for (int c = 0; c < g_nchunk; ++c)
     if (a >= g_chunk[c].base && a < g_chunk[c].end) return 1;
   return 0;
-#endif
 }
 static void* lib_alloc(size_t size, size_t align, int zero) {
   if (align < 16) align = 16;
